@@ -116,6 +116,15 @@ func Listen(network, address string) (net.Listener, error) {
 	}
 	l := &listener{path: ap, fs: fsys, owner: p}
 	sockets(fsys)[ap] = l
+	if w := simrt.Current(); w != nil {
+		// for oracles: which processes' bind succeeded (the "bind" operation is visible before its outcome is)
+		m, _ := w.Data["sock_bound"].(map[int]bool)
+		if m == nil {
+			m = map[int]bool{}
+			w.Data["sock_bound"] = m
+		}
+		m[p.Pid] = true
+	}
 	p.AtExit(func() {
 		// a dead process's listener vanishes; the socket file stays behind
 		if !l.closed {
